@@ -685,10 +685,12 @@ def run(ctx):
             jobs = base + rng.sample(rest, min(len(rest), 400))
         cap = 400 if ctx.thorough else 40
         n_complete = 0
-        budget = 600 if ctx.thorough else 36
+        # The work of this phase is fixed by (tier, seed) alone: every job in `jobs` is enumerated, up to `cap` schedules
+        # each.  There is deliberately no wall-clock budget here: a budget counted from the start of the check included
+        # the Lean build, so a cold or loaded machine silently enumerated fewer pairs than the evidence of a warm run
+        # described (seen on a fresh restore: 44 s, part of the sampled pairs skipped).
         if ctx.broken:
             # a theorem / the generated tie no longer checks: this run is the search for a failing input
-            budget = 600 if ctx.thorough else 75
             ctx.extra["search_mode"] = "tie broken: single-preemption schedules for every pair first"
             for setup, a, b in [j for j in jobs if j[0] in (["fileno"], ["fileno", "feed2"], ["fileno", "feed1"],
                                                              ["fileno", "feed1", "feed2"])]:
@@ -698,9 +700,6 @@ def run(ctx):
                     r.label = (tuple(setup), a, b)
                 rigs.extend(rs)
         for setup, a, b in jobs:
-            if ctx.deadline(budget):
-                ctx.dist("skipped:pair-budget")
-                continue
             rs, complete = enumerate_pairs(ctx, world_box, table, setup, a, b, cap, rng)
             n_complete += 1 if complete else 0
             if not complete:
@@ -1106,7 +1105,7 @@ META = {
              "'pipe.py calls are atomic' (serialisability of lock-protected regions) is not proved in Lean; it is covered "
              "by the exhaustive line-level enumeration of operation pairs on the real code each run (oracle: select() vs "
              "buffers at quiescence, no deadlock) and by a breadth-first exploration, on every run, of ALL schedules of "
-             "the statement-level model over the generated instruction lists (lock-holder abstraction, ~21.7k states: no "
+             "the statement-level model over the generated instruction lists (lock-holder abstraction, ~46k states in the quick tier, the count is in the evidence file: no "
              "bad quiescent state, no deadlock; an offending schedule would be replayed on the real code) — a search, "
              "not a proof. A kernel-checked version of that exploration (~3x10^5 interpreter steps under `decide`) and "
              "a hand-written pc-indexed refinement proof were both judged out of reach in the time available. Trusted: Lean kernel + 3 axioms; pv.lib_coop scheduler and pv.lib_pipegen "
